@@ -339,4 +339,54 @@ theorem borrow_limit_per_pending_refuted :
 example : (step (run (World.init cexCfg) [.cserver 0 none, .cclient 0 none, .send 0 0 1]) (.send 0 1 2)).2
     = "err:send:ExceedsMaxActiveRequests" := by decide
 
+/-! ### the two repaired defects (901028c, 1fb407e): positive statements -/
+
+/-- (e, 1fb407e) a failed loan of a response - `ExceedsMaxLoans` or `OutOfMemory` - leaves every active
+request of the server, in particular its loan counter, unchanged: the request can be answered as soon as
+memory is available again -/
+theorem failed_loan_leaves_loan_counter (w : World) (s a tag : Nat) (V : Server) (hV : getSv w s = some V)
+    (hout : (step w (.respond s a tag)).2 = "err:loan:OutOfMemory" ∨ (step w (.respond s a tag)).2 = "err:loan:ExceedsMaxLoans") :
+    ∃ V', getSv (step w (.respond s a tag)).1 s = some V' ∧ V'.actives = V.actives :=
+  opRespond_failed_loan w s a tag V hV hout
+
+/-- (901028c) a received chunk that is given back - what `Server::receive` now does with every request it
+skips, also the one of a vanished client - restores the borrow counter of its channel; the chunk travels
+home through the completion queue -/
+theorem skipped_request_released (w : World) (me : Pid) (R : Rcv) (key ch : Nat) (f : Pid) (c : Conn) (x : Chan) (e : Entry)
+    (rest : List Entry) (hR : getRcv w me = some R) (hk : smGet R.storage key = some f) (hc : getConn w f me = some c)
+    (hx : c.chans[ch]? = some x) (hb : x.borrow < c.maxBorrow) (hs : x.sub = e :: rest)
+    (hroom : x.comp.length < c.cap + c.maxBorrow + 1) :
+    ∃ h m, (recvFromConn w me R key ch).2 = .some h m ∧ m = e.msg ∧
+      ∃ c' x', getConn (rcvRelease (recvFromConn w me R key ch).1 me h) f me = some c' ∧ c'.chans[ch]? = some x' ∧
+        x'.borrow = x.borrow ∧ x'.comp = x.comp ++ [e.chunk] ∧ x'.sub = rest :=
+  recv_then_release w me R key ch f c x e rest hR hk hc hx hb hs hroom
+
+/-- regression of 901028c (history `CEX_LEAK` of the check): a server without fire-and-forget skips the request
+of a vanished client, later holds one request of another vanished client with an expired-connection buffer
+of 1 - and `update_connections` no longer ends in the fatal panic -/
+example :
+    let ops : List Op := [.cserver 0 none, .cclient 0 none, .send 0 0 1, .updS 0, .dpending 0 0, .dclient 0, .recvreq 0 0,
+      .cclient 1 none, .send 1 1 2, .recvreq 0 1, .dpending 1 1, .dclient 1]
+    allOk (World.init cexCfg) ops = true ∧ (step (run (World.init cexCfg) ops) (.updS 0)).2 = "ok" := by decide
+
+/-- configuration and history of the regression case of 1fb407e: four answered requests whose responses are
+never fetched use up the server's 8 chunks -/
+def loanCfg : Cfg :=
+  { maxClients := 1, maxServers := 2, maxActive := 1, respBuf := 2, maxBorrow := 1, ovReq := false, ovResp := true,
+    ff := false, maxLoans := 1, cExpired := 2, sExpired := 1 }
+
+def loanRound (r a t : Nat) : List Op :=
+  [.send 0 r t, .recvreq 0 a, .respond 0 a (t + 1), .respond 0 a (t + 2), .dpending 0 r, .dactive 0 a]
+
+def loanOps : List Op :=
+  [.cserver 0 (some 1), .cclient 0 none] ++ loanRound 1 1 10 ++ loanRound 2 2 20 ++ loanRound 3 3 30 ++ loanRound 4 4 40 ++
+    [.send 0 5 50, .recvreq 0 5]
+
+/-- regression of 1fb407e: after a loan that failed for lack of memory the active request is not stuck - the
+next loan fails for the same reason, not with `ExceedsMaxLoans` -/
+example :
+    (step (run (World.init loanCfg) loanOps) (.respond 0 5 51)).2 = "err:loan:OutOfMemory" ∧
+    (step (step (run (World.init loanCfg) loanOps) (.respond 0 5 51)).1 (.respond 0 5 52)).2 = "err:loan:OutOfMemory" := by
+  decide
+
 end Iox2.C11
